@@ -74,7 +74,9 @@ def r_printer(P, rep):
         raise AnalysisBroken('anchor %s vanished from %s' % (fn, MU))
     rep.rule('R19.1', 'print_tokens writes a newline before every token with at_bol (except the first), a space before a token with has_space, then exactly the token\'s spelling, and ends the output with a newline', floor=5)
     outs = ('fprintf', 'fputs', 'fputc', 'putc', 'fwrite')
-    it = PInterp(P, u, {'opaque': ['open_file'], 'cut': {k: None for k in outs}, 'loop_limit': 2, 'track_stores': True})
+    # helpers the printer consults (e.g. a predicate over two neighbouring tokens) stay opaque: their answer forks the path
+    helpers = sorted(set(c.callee() for c in u.fn(fn).walk() if c.kind == 'CallExpr' and c.callee() and c.callee() not in outs) | {'open_file'})
+    it = PInterp(P, u, {'opaque': helpers, 'cut': {k: None for k in outs}, 'loop_limit': 2, 'track_stores': True})
 
     def mk(ctx):
         ctx.tok = Obj('Token', lazy=True, label='tok')
@@ -132,7 +134,12 @@ def r_printer(P, rep):
                          'a token preceded by white space in the source (has_space%s) is written directly after the previous token: `a + ++b` becomes `a +++b`' % ('' if isinstance(hs, int) else ' not even consulted'),
                          where, facts)
             if i > 0 and isinstance(ab, int) and ab == 0 and isinstance(hs, int) and hs == 0 and sep:
-                protect = True      # the printer separates tokens for a reason other than their own flags
+                # the printer separates tokens for a reason other than their own flags: it counts as protection of expansion
+                # boundaries when the reason is a question asked about this token AND its predecessor (their spellings)
+                asked = [c for c in ctx.events if c[0] == 'call' and c[1] in helpers and c[1] != 'open_file'
+                         and any(as_obj(it, a) is T for a in c[2]) and any(as_obj(it, a) is toks[i - 1] for a in c[2])]
+                if asked or not any(c[0] == 'call' and c[1] in helpers and c[1] != 'open_file' for c in ctx.events):
+                    protect = True
             i += 1
         if bad:
             continue
@@ -171,10 +178,39 @@ def r_join(P, rep):
             if srcs and srcs[-1].inner[1].strip().kind == 'CallExpr' and srcs[-1].inner[1].strip().callee() == 'preprocess':
                 printed_is_preprocessed = (fname, c.line)
     calls = pu.fn('preprocess').calls(J)
+    where = '%s:%d' % (PU, pu.fn(J).line)
+    if printed_is_preprocessed and not calls:
+        # the merging pass is run by the driver itself: it is harmless iff it runs only after the printing path has left
+        pf = mu.fn(printed_is_preprocessed[0])
+        body = next((c for c in pf.inner if c.kind == 'CompoundStmt'), None)
+        top = body.inner if body is not None else []
+        def top_index(call):
+            return next((i for i, st_ in enumerate(top) if st_ is call or any(x is call for x in st_.walk())), None)
+        jc = pf.calls(J)
+        pc = pf.calls('print_tokens')
+        if not jc:
+            return      # nobody merges before printing (other callers are outside the -E path)
+        ip = top_index(pc[0]) if pc else None
+        ij = min((top_index(c) for c in jc if top_index(c) is not None), default=None)
+        if ip is None or ij is None:
+            rep.undecided('R19.1', '%s:%s:conditional' % (PU, J), 'the order of the string-literal merging pass and print_tokens in %s is not recognised' % printed_is_preprocessed[0], where=where)
+            return
+        pst = top[ip]
+        leaves = False
+        if pst.kind == 'IfStmt' and len(pst.inner) >= 2:
+            th = pst.inner[1]
+            last = th.inner[-1] if th.kind == 'CompoundStmt' and th.inner else th
+            leaves = last.kind == 'ReturnStmt' or (last.kind == 'CallExpr' and last.callee() in ('exit', '_exit', 'abort'))
+        if ij > ip and leaves:
+            rep.ob('R19.1', '%s:%s:merged-literal-spelling' % (PU, J), True, '', where=where, facts={'merging pass': 'runs in %s:%s after the -E path has returned' % (MU, printed_is_preprocessed[0])})
+            return
+        if ij > ip:
+            rep.undecided('R19.1', '%s:%s:conditional' % (PU, J), 'the merging pass follows print_tokens in %s but the printing path is not seen to leave the function' % printed_is_preprocessed[0], where=where)
+            return
+        calls = jc      # merged before printing: decide on the concrete list below
     if not printed_is_preprocessed or not calls:
         return
     cond = [a.kind for a in calls[0].ancestors() if a.kind in ('IfStmt', 'ConditionalOperator', 'ForStmt', 'WhileStmt', 'DoStmt', 'SwitchStmt')]
-    where = '%s:%d' % (PU, pu.fn(J).line)
     if cond:
         rep.undecided('R19.1', '%s:%s:conditional' % (PU, J), 'the string-literal merging pass runs under a condition the rule does not evaluate', where=where)
         return
